@@ -17,9 +17,11 @@ def _last_case(err):
     return int(m[-1]) if m else None
 
 
-def run_profile(chk, binp, profile, total_cases, sd, thorough=False, extra=None, timeout=3600, env=None, base_offset=0, label=None):
+def run_profile(chk, binp, profile, total_cases, sd, thorough=False, extra=None, timeout=None, env=None, base_offset=0, label=None):
     """Runs `total_cases` cases of a profile split over all cores. A shard that dies (stall, hang, sanitizer report,
     assertion) has its witness recorded and is restarted after the offending case. Returns merged summary dict."""
+    if timeout is None:   # generous wall-clock watchdog per shard (a firing is inconclusive, never a verdict); sized for a loaded machine
+        timeout = 14400 if thorough or total_cases > 20000 else 3600
     shards = min(vlib.NCPU, max(1, total_cases))
     per = (total_cases + shards - 1) // shards
     label = label or profile
